@@ -543,3 +543,350 @@ def replay(prop, path, seed):
     print("replay: %d deviations" % len(ctx.devs))
     ctx.cleanup()
     return 1 if [d for d in ctx.devs if d["prop"] == ctx.prop] else 0
+
+
+# ====================================================================== PPolyND family (C03, C11, C16 second sentence, C20)
+import bisect
+
+PP_ORDS = (-1, 4, 6, 8, 12)
+PP_NSEGS = (1, 2, 5, 31, 32, 33, 40)       # around the linear/binary search threshold (32)
+
+
+def pp_piece(bp, t):
+    n = len(bp) - 1
+    if t < bp[0]:
+        return 0
+    if t >= bp[-1]:
+        return n - 1
+    return bisect.bisect_right(bp, t) - 1
+
+
+def pp_data(r, dim, nseg, nc, t0=None, cls="grid"):
+    bp = [r.choice([0.0, 0.5, -3.25, 100.0]) if t0 is None else t0]
+    for _ in range(nseg):
+        bp.append(bp[-1] + (r.dyadic(0.125, 2, 16) if cls == "grid" else r.uniform(0.05, 2.0)))
+    C = [[(r.dyadic(-4, 4, 8) if cls == "grid" else r.uniform(-10, 10)) for _ in range(dim)] for _ in range(nseg * nc)]
+    return bp, C
+
+
+def pp_ctor(obj, dim, ord_, bp, C, nc, op="ctor"):
+    c = {"op": op, "obj": obj, "dim": dim, "bp": gen.hv(bp), "C": gen.hm(C), "nc": nc}
+    if op == "ctor":
+        c["ord"] = ord_
+    return c
+
+
+def pp_times(r, bp, dense):
+    import math
+    ts = [bp[0] - 1e9, bp[0] - 0.25, bp[-1] + 0.25, bp[-1] + 1e9, bp[0], bp[-1]]
+    idx = list(range(len(bp)))
+    if not dense and len(idx) > 5:
+        idx = sorted(set([0, 1, len(bp) - 2, len(bp) - 1] + r.sample(idx, 3)))
+    for i in idx:
+        ts += [bp[i], math.nextafter(bp[i], -math.inf), math.nextafter(bp[i], math.inf)]
+        if i + 1 < len(bp):
+            ts.append(0.5 * (bp[i] + bp[i + 1]))
+            ts.append(bp[i] + r.random() * (bp[i + 1] - bp[i]))
+    return ts
+
+
+def pp_route_cmds(r, obj, bp, nc, dense):
+    nseg = len(bp) - 1
+    out = []
+    ks = sorted(set([0, 1, max(0, nc - 1), nc, nc + 1, r.randrange(0, nc + 1)]))
+    for t in pp_times(r, bp, dense):
+        pc = pp_piece(bp, t)
+        if nseg <= 5 and dense:
+            hs = list(range(-2, nseg + 2))
+        else:
+            hs = sorted(set([-2, 0, pc - 1, pc, pc + 1, nseg - 1, nseg, nseg + 1, r.randint(-1, nseg)]))
+        for k in (ks if dense else r.sample(ks, min(3, len(ks)))):
+            for h in (hs if dense else r.sample(hs, min(4, len(hs)))):
+                out.append({"op": "routes", "obj": obj, "t": gen.hx(t), "k": k, "hint": h, "seg": pc})
+    return out
+
+
+def pp_sweep_cmds(r, obj, bp, nc, cell):
+    ts = pp_times(r, bp, False)
+    fw = sorted(ts)
+    out = [{"op": "sethint", "cell": cell, "value": r.randint(-3, len(bp) + 2)}]
+    for order in (fw, fw[::-1], r.sample(ts, len(ts))):
+        for t in order:
+            out.append({"op": "eval_hint", "obj": obj, "cell": cell, "t": gen.hx(t), "k": r.choice([0, 1, nc - 1, nc])})
+    return out
+
+
+def pp_structural_execs(r, quick):
+    """every ORDER parameter x dimension; segment counts around the search threshold; coefficient counts around the static-table limit"""
+    execs = []
+    k = 0
+    for ord_ in PP_ORDS:
+        ncs = [n for n in (1, 2, 4, 6, 8, 9, 12) if ord_ < 0 or n <= ord_]
+        for dim in (1, 2, 3, 4):
+            combos = [(ns, nc) for ns in PP_NSEGS for nc in ncs]
+            if quick:
+                r.shuffle(combos)
+                # keep the threshold neighbourhood and the table limit represented in every (ord, dim)
+                pick = []
+                for want in ((31, None), (32, None), (33, None), (1, None), (None, max(ncs)), (None, min(8, max(ncs)))):
+                    for c in combos:
+                        if (want[0] is None or c[0] == want[0]) and (want[1] is None or c[1] == want[1]) and c not in pick:
+                            pick.append(c)
+                            break
+                combos = pick[:4] if dim > 1 else pick
+            for (nseg, nc) in combos:
+                k += 1
+                bp, C = pp_data(r, dim, nseg, nc, cls=r.choice(["grid", "real"]))
+                cmds = [{"op": "reset"}, pp_ctor(1, dim, ord_, bp, C, nc)]
+                cmds += pp_route_cmds(r, 1, bp, nc, dense=(nseg <= 5 and not quick) or (nseg <= 2))
+                cmds += pp_sweep_cmds(r, 1, bp, nc, 0)
+                for i in sorted(set([0, nseg - 1, r.randrange(nseg)])):
+                    cmds.append({"op": "seg_info", "obj": 1, "seg": i})
+                # stale hints carried across an update to a different size
+                bp2, C2 = pp_data(r, dim, max(1, nseg // 2), nc)
+                cmds.append(pp_ctor(1, dim, ord_, bp2, C2, nc, op="update"))
+                cmds += pp_sweep_cmds(r, 1, bp2, nc, 0)[1:12]
+                cmds += pp_route_cmds(r, 1, bp2, nc, dense=False)[:20]
+                execs.append((len(cmds) * dim * nc, cmds))
+    return execs
+
+
+PP_NC = {1: 4, 2: 8, 3: 10}          # abstract coefficient counts (model StaticLimit = 2) -> concrete (limit 8)
+PP_FIXED = {0: -1, 3: 12, 2: 8}      # abstract order parameter -> concrete ORDER (2 -> 8: ten coefficients are rejected)
+
+
+def mcppoly_cfg(fixed, maxops, emit, broken="none"):
+    return ("SPECIFICATION Spec\nCONSTANTS\n  StaticLimit = 2\n  Ids = {1, 2}\n  Fixed = %d\n  Ncs = {1, 2, 3}\n  Segs = {1, 2}\n  Versions = {1, 2}\n"
+            "  MaxOps = %d\n  Emit = %s\n  Broken = \"%s\"\nINVARIANT Inv\nCONSTRAINT EmitScripts\nVIEW View\nCHECK_DEADLOCK FALSE\n"
+            % (fixed, maxops, "TRUE" if emit else "FALSE", broken))
+
+
+def expand_ppoly_script(r, tabseed, fixed, hist, dim):
+    """abstract history from MCPPolyObj -> concrete commands + observation suffix on every live object"""
+    ord_ = PP_FIXED[fixed]
+    cmds = [{"op": "reset"}]
+    live = {}          # obj -> (bp, nc, init)
+
+    def concrete(v, kind, nseg, nc):
+        rr = gen.Rng(tabseed * 131 + v * 17 + nseg * 5 + nc)
+        cnc = PP_NC[nc]
+        cns = {1: 3, 2: 34}[nseg]
+        bp, C = pp_data(rr, dim, cns, cnc, t0=0.5)
+        if kind == "few_bp":
+            bp, C = bp[:1], []
+        elif kind == "row_mismatch":
+            C = C + [C[0]]
+        return bp, C, cnc
+    for a in hist:
+        op = a["op"]
+        if op in ("ctor", "update"):
+            if op == "update" and a["obj"] not in live:
+                continue
+            bp, C, cnc = concrete(a["v"], a["kind"], a["nseg"], a["nc"])
+            cmds.append(pp_ctor(a["obj"], dim, ord_, bp, C, cnc, op=op))
+            ok = a["kind"] == "ok" and (ord_ < 0 or cnc <= ord_)
+            live[a["obj"]] = (bp, cnc, ok)
+        elif op == "eval":
+            if a["obj"] in live:
+                bp, cnc, ok = live[a["obj"]]
+                k = {0: 0, 1: 1, 2: cnc - 1, 3: cnc}[a["k"]]
+                if ok:
+                    cmds.append({"op": "eval", "obj": a["obj"], "t": gen.hx(bp[1] + 0.03), "k": k})
+                else:
+                    cmds.append({"op": "eval", "obj": a["obj"], "t": gen.hx(0.7), "k": k})     # rejected: zero for every order
+        elif op == "derivative":
+            if a["src"] in live:
+                bp, cnc, ok = live[a["src"]]
+                k = {1: 1, 2: max(1, cnc - 1)}[a["k"]]
+                cmds.append({"op": "derivative", "dst": a["dst"], "src": a["src"], "k": k})
+                live[a["dst"]] = (bp, max(1, cnc - k), ok)
+        elif op in ("copy", "assign"):
+            if a["src"] in live and (op == "copy" or a["dst"] in live):
+                cmds.append({"op": op, "dst": a["dst"], "src": a["src"]})
+                live[a["dst"]] = live[a["src"]]
+    for oid in sorted(live):
+        bp, cnc, ok = live[oid]
+        cmds.append({"op": "info", "obj": oid})
+        if ok:
+            for t in (bp[0], bp[1], bp[1] + 0.03, bp[-1]):
+                for k in (0, 1, cnc - 1):
+                    cmds.append({"op": "routes", "obj": oid, "t": gen.hx(t), "k": k, "hint": r.randint(-1, len(bp)), "seg": pp_piece(bp, t)})
+            for i in (-2, -1, 0, len(bp) - 2, len(bp) - 1, len(bp)):
+                cmds.append({"op": "at", "obj": oid, "i": i})
+        else:
+            cmds.append({"op": "eval", "obj": oid, "t": gen.hx(0.7), "k": 0})
+            for i in (-1, 0, 1):
+                cmds.append({"op": "at", "obj": oid, "i": i})
+    return cmds
+
+
+def pp_lifecycle_execs(ctx, r, nsample):
+    from vcheck import tlc_generate
+    execs = []
+    for fixed in (0, 3, 2):
+        scripts = tlc_generate(ctx, "MCPPolyObj", mcppoly_cfg(fixed, 2, True), "ppolyobj_f%d" % fixed)
+        groups = {}
+        for h in scripts:
+            last = h[-1]
+            groups.setdefault((last["op"], last.get("kind", ""), len(h)), []).append(h)
+        per = max(1, nsample // max(1, len(groups)))
+        for g in sorted(groups):
+            hs = groups[g]
+            r.shuffle(hs)
+            for h in hs[:per]:
+                cmds = expand_ppoly_script(r, ctx.seed, fixed, h, r.choice([1, 2, 3, 4]))
+                execs.append((len(cmds), cmds))
+    return execs
+
+
+def pp_mc(ctx, lookup=True, lifecycle=True):
+    if lookup:
+        big = not ctx.quick()
+        cfg = "SPECIFICATION Spec\nCONSTANTS\n  L = %d\n  MaxSeg = %d\n  Threshold = 3\n  Broken = \"%s\"\nINVARIANT LookupCorrect\nCHECK_DEADLOCK FALSE\n"
+        run_mc_text(ctx, "PPolyLookup", cfg % (7 if big else 5, 6 if big else 5, "none"), "PPolyLookup", workers=8)
+        for b in ("le", "ub", "nohint"):
+            run_mc_text(ctx, "PPolyLookup", cfg % (4, 4, b), "broken twin lookup:" + b, workers=4, expect_violation=True)
+    if lifecycle:
+        for fixed in (0, 2):
+            run_mc_text(ctx, "MCPPolyObj", mcppoly_cfg(fixed, 3 if ctx.quick() else 4, False), "MCPPolyObj(fixed=%d)" % fixed, workers=8, heap="8g")
+        for b in ("noinvalidate", "keeptable"):
+            run_mc_text(ctx, "MCPPolyObj", mcppoly_cfg(0, 3, False, b), "broken twin lifecycle:" + b, workers=4, expect_violation=True)
+
+
+def pp_finish(ctx, batches, rule, props):
+    exe = vbuild.ppoly_replay()
+    ctx.family, ctx.tracespec, ctx.env_flags = "ppoly", "TracePPoly", {}
+    ctx.samples = [b[1:4] for b in batches[:2]]
+    replay_and_validate(ctx, exe, batches, "TracePPoly", {})
+    return finish(ctx, "model_checking", rule, TRUSTED,
+                  ["breakpoints strictly increasing and finite; evaluation tolerance 64 ulp-equivalents of sum_k |c_k dt^k| (DESIGN s4)",
+                   "bit identity only between observations of one binary"], props_judged=props)
+
+
+def plan_C03(ctx):
+    selftest_rat(ctx)
+    pp_mc(ctx)
+    r = gen.Rng(ctx.seed * 1000003 + 3)
+    execs = pp_structural_execs(r, ctx.quick()) + pp_lifecycle_execs(ctx, r, 150 if ctx.quick() else 3000)
+    batches = balanced(execs, 32 if ctx.quick() else 96)
+    return pp_finish(ctx, batches,
+                     "lookup algorithm transcribed and checked by TLC against the half-open-interval definition for every breakpoint vector on a "
+                     "lattice, every time, every hint and every hint history (3 broken twins rejected); on the real class: ORDER in "
+                     "{Dynamic,4,6,8,12} x dimension 1..4 x segment counts {1,2,5,31,32,33,40} x coefficient counts 1..12; times on every "
+                     "breakpoint, one ulp either side, inside, +-1e9; derivative orders incl. beyond the degree; hints incl. out of range and stale "
+                     "across updates; every route (plain, hinted, null hint, batch, enum overloads, [] / at / iterator, derivative trajectory) in one "
+                     "event must give identical bits, the exact value of the defined piece within 64 ulp-equivalents, and the hint post-state",
+                     {"C03"})
+
+
+def plan_C11(ctx):
+    selftest_rat(ctx)
+    pp_mc(ctx, lookup=False)
+    r = gen.Rng(ctx.seed * 1000003 + 11)
+    execs = pp_lifecycle_execs(ctx, r, 400 if ctx.quick() else 8000)
+    batches = balanced(execs, 24 if ctx.quick() else 96)
+    rc1 = pp_finish_partial(ctx, batches)
+    # spline objects updated after their trajectory has been evaluated: scripts of the spline life-cycle model ending in evaluations
+    exe = vbuild.spline_replay()
+    tab = ProbTable(ctx.seed)
+    sexecs = []
+    for order in gen.ORDERS:
+        scripts = [h for h in tlc_generate_spline(ctx, order) if any(a["op"] in ("eval", "knots") for a in h[:-1]) and h[-1]["op"] == "build"]
+        r.shuffle(scripts)
+        for h in scripts[:60 if ctx.quick() else 1500]:
+            cmds = expand_spline_script(tab, order, h)
+            sexecs.append((len(cmds), cmds))
+    ctx.family, ctx.tracespec, ctx.env_flags = "spline", "TraceSpline", {"VJ_KEEPMEMO": "1"}
+    replay_and_validate(ctx, exe, balanced(sexecs, 16 if ctx.quick() else 48), "TraceSpline", {"VJ_KEEPMEMO": "1"}, label="s")
+    return finish(ctx, "model_checking",
+                  "TLC explores the PPolyND life cycle (construct valid/rejected, update same/different sizes, copy, assign, derivative trajectory, "
+                  "evaluation at several orders) with the two lazy caches modelled (CacheCoherent, NeverStale; 2 broken twins rejected); one script "
+                  "per abstract transition, class-balanced sample, expanded on dynamic and fixed ORDER with coefficient counts on both sides of the "
+                  "static-table limit and segment counts on both sides of the search threshold; every evaluation must equal the exact value of "
+                  "the LATEST data of that object; spline objects are re-built after their trajectory was evaluated and evaluated again",
+                  TRUSTED, ["as C03"], props_judged={"C11", "C03", "C10"})
+
+
+def pp_finish_partial(ctx, batches):
+    exe = vbuild.ppoly_replay()
+    ctx.family, ctx.tracespec, ctx.env_flags = "ppoly", "TracePPoly", {}
+    ctx.samples = [b[1:4] for b in batches[:2]]
+    replay_and_validate(ctx, exe, batches, "TracePPoly", {})
+
+
+# ---------------------------------------------------------------------- C20: sampling, length, factories
+def c20_execs(r, quick):
+    import math
+    execs = []
+    reps = 2 if quick else 40
+    for rep in range(reps):
+        for ord_ in PP_ORDS:
+            for dim in (1, 2, 3, 4):
+                nc = r.choice([n for n in (1, 2, 4, 6, 8, 10, 12) if ord_ < 0 or n <= ord_])
+                nseg = r.choice([1, 2, 5, 12])
+                bp, C = pp_data(r, dim, nseg, nc, cls=r.choice(["grid", "real"]))
+                cmds = [{"op": "reset"}, pp_ctor(1, dim, ord_, bp, C, nc)]
+                a, b = bp[0], bp[-1]
+                L = b - a
+                cases = []
+                # full range with steps larger than, equal to, nearly dividing and not dividing the interval
+                for dt in (L * 2, L, L / 4, L / 7, L / 3 * (1 + 2 ** -50), L / 5 * (1 - 2 ** -50), 0.1, 0.01 * r.uniform(1, 3), L / 64):
+                    cases.append((None, None, dt))
+                # sub-ranges and a zero-length interval
+                s0 = a + r.random() * L * 0.5
+                e0 = s0 + r.random() * (b - s0)
+                for dt in ((e0 - s0) / 3, (e0 - s0) / 2.5, 0.05, (e0 - s0) * 1.5):
+                    if dt > 0:
+                        cases.append((s0, e0, dt))
+                cases.append((s0, s0, 0.1))
+                for k in (3, 10, 17):            # k dt within a few ulps of the interval, both sides
+                    dt = (e0 - s0) / k
+                    cases.append((s0, s0 + k * dt, dt))
+                    cases.append((s0, math.nextafter(s0 + k * dt, math.inf), dt))
+                    cases.append((s0, math.nextafter(s0 + k * dt, -math.inf), dt))
+                for (s, e, dt) in cases:
+                    if dt <= 0 or (e is not None and e < s):
+                        continue
+                    span = (e - s) if s is not None else L
+                    if span / dt > 4000 or dt < 2 ** -20 * max(1.0, abs(a), abs(b)):
+                        continue
+                    c = {"op": "tseq", "obj": 1, "dt": gen.hx(dt)}
+                    if s is not None:
+                        c["start"], c["end"] = gen.hx(s), gen.hx(e)
+                    cmds.append(c)
+                    c2 = dict(c)
+                    c2["op"] = "length"
+                    cmds.append(c2)
+                ts = pp_times(r, bp, False)
+                for k in (0, 1, nc):
+                    cmds.append({"op": "batch", "obj": 1, "ts": gen.hv(ts), "k": k})
+                # factories
+                fnc = r.choice([n for n in (1, 2, 3, 8, 9, 12) if ord_ < 0 or n <= ord_])
+                cmds.append({"op": "factory", "obj": 2, "dim": dim, "ord": ord_, "which": "zero", "bp": gen.hv(bp), "nc": fnc})
+                cmds.append({"op": "factory", "obj": 3, "dim": dim, "ord": ord_, "which": "zero", "bp": gen.hv(bp)})
+                val = [r.choice([r.dyadic(-8, 8, 8), r.uniform(-100, 100), 0.0]) for _ in range(dim)]
+                cmds.append({"op": "factory", "obj": 4, "dim": dim, "ord": ord_, "which": "constant", "bp": gen.hv(bp), "val": gen.hv(val)})
+                cmds.append({"op": "factory", "obj": 5, "dim": dim, "ord": ord_, "which": "zero", "bp": gen.hv(bp[:1]), "nc": 1})
+                for oid, fn in ((2, fnc), (3, 1), (4, 1)):
+                    for t in ts[:10]:
+                        for k in (0, 1, 2, fn):
+                            cmds.append({"op": "eval", "obj": oid, "t": gen.hx(t), "k": k})
+                execs.append((len(cmds) * dim, cmds))
+    return execs
+
+
+def plan_C20(ctx):
+    selftest_rat(ctx)
+    run_mc_text(ctx, "TimeSeq", "SPECIFICATION Spec\nCONSTANTS\n  MaxLen = %d\n  Broken = \"none\"\nINVARIANT Contract\nCHECK_DEADLOCK FALSE\n" % (12 if ctx.quick() else 24), "TimeSeq", workers=4)
+    run_mc_text(ctx, "TimeSeq", "SPECIFICATION Spec\nCONSTANTS\n  MaxLen = 8\n  Broken = \"onesided\"\nINVARIANT Contract\nCHECK_DEADLOCK FALSE\n", "broken twin timeseq:onesided", workers=2, expect_violation=True)
+    r = gen.Rng(ctx.seed * 1000003 + 20)
+    batches = balanced(c20_execs(r, ctx.quick()), 32 if ctx.quick() else 96)
+    return pp_finish(ctx, batches,
+                     "time sequences over full range, sub-ranges and zero-length intervals with steps larger than, equal to, nearly dividing (k*dt "
+                     "within an ulp of the interval on both sides) and not dividing the interval; contract judged exactly on the logged bits; length "
+                     "against the exact left Riemann sum over the recorded sequence (square roots bracketed to 1e-30); batch = pointwise bits; "
+                     "zero/constant factories on ORDER in {Dynamic,4,6,8,12} x dimension 1..4: initialised on the given breakpoints, exact values",
+                     {"C20"})
+
+
+PLANS.update({"C03": plan_C03, "C11": plan_C11, "C20": plan_C20})
